@@ -334,16 +334,23 @@ inductive OpEv where
   | keyed (key : Bytes) (timers : List Int)
   | wmark (sender : String) (wm : Int)
   | redeploy (store : Store) (ids : List String)   -- `HandleDeploy` on the same operator: fresh DB, timer store and registry
+  | complete (sender : String)                     -- `SourceComplete` of a runner
 deriving Repr
 
 /-- `HandleDeploy`: `timerRegistry = NewTimerRegistry(NewTimerStore(db, ...), req.SourceRunnerIds)`; the event batcher
 (created in `Start`) and whatever it still holds are kept -/
 def Op.redeploy (o : Op) (store : Store) (ids : List String) : Op := { o with reg := Registry.new store ids }
 
+/-- `handleSourceComplete`: the current batch is flushed and the runner is marked inactive in `sourceRunners`; the
+registry's upstream map is untouched, so the completed runner's latest watermark keeps bounding the composite
+(the operator stops once no runner is active: histories end there) -/
+def Op.complete (o : Op) (_sender : String) : Op × List Req := o.flush
+
 def Op.step (o : Op) : OpEv → Op × List Req
   | .keyed k ts => o.keyed k ts
   | .wmark s v => o.watermark s v
   | .redeploy st ids => (o.redeploy st ids, [])
+  | .complete s => o.complete s
 
 def Op.runState (o : Op) : List OpEv → Op
   | [] => o
@@ -355,5 +362,6 @@ def epochOf : List String × List (String × Int) → List OpEv → List String 
   | s, .keyed _ _ :: es => epochOf s es
   | (ids, ms), .wmark s v :: es => epochOf (ids, ms ++ [(s, v)]) es
   | _, .redeploy _ ids :: es => epochOf (ids, []) es
+  | s, .complete _ :: es => epochOf s es     -- a completed runner's reports still count
 
 end Rxn.Timers
